@@ -451,8 +451,52 @@ def wide_cases(rng: Rng, tier):
             yield fn, kw, ("wide", S)
 
 
+def _brute_counts(score: torch.Tensor, onehot: torch.Tensor, thr: torch.Tensor):
+    """per-threshold counting with torch comparisons on the very float32 values the kernels see (scores k/128 and the
+    threshold tensor): (num_tp, num_fp, num_fn) of shape (classes, thresholds)"""
+    pred = score.unsqueeze(-1) >= thr                      # (n, C, T)
+    pos = (onehot == 1).unsqueeze(-1)
+    return (pred & pos).sum(0), (pred & ~pos).sum(0), (~pred & pos).sum(0)
+
+
+def wide_verdict(fn, kw):
+    """the C06 statement on a wide case (real code only; these shapes are too large for the rational model and oracle):
+    curve = per-threshold counting, vectorized = memory.  None | (signature, what, extra)"""
+    real = real_call(fn, kw)
+    if real[0] != "ok":
+        return (sig(fn, kw, "raises-on-a-valid-wide-input"), f"{fn} raised {real[1]} on {kw['input'].shape} scores, threshold={kw['threshold']}", {"relation": "wide"})
+    other = real_call(fn, other_mode(kw))
+    if not same_outputs(real, other):
+        return (sig(fn, kw, "vectorized-differs-from-memory"),
+                f"{fn}: optimization={kw['optimization']} and the other mode differ on {tuple(kw['input'].shape)} scores, threshold={kw['threshold']}", {"relation": "modes"})
+    if fn.endswith("curve"):
+        S = kw["input"].shape[1]
+        onehot = torch.nn.functional.one_hot(kw["target"], S) if fn.startswith("multiclass") else kw["target"]
+        thr = thr_tensor(kw["threshold"])
+        tp, fp, fn_ = _brute_counts(kw["input"], onehot, thr)
+        prec = torch.nan_to_num(tp / (tp + fp), nan=1.0)
+        rec = tp / (tp + fn_)
+        prec = torch.cat([prec, torch.ones(S, 1)], 1); rec = torch.cat([rec, torch.zeros(S, 1)], 1)
+        # outputs arrive flattened by call_real: precision list (S tensors), recall list (S tensors), thresholds
+        flat = list(real[1])
+        P = torch.stack(flat[:S]) if len(flat) >= 2 * S else None
+        R = torch.stack(flat[S:2 * S]) if len(flat) >= 2 * S else None
+        if P is not None and (not torch.allclose(P, prec, rtol=0, atol=1e-6, equal_nan=True) or not torch.allclose(R, rec, rtol=0, atol=1e-6, equal_nan=True)):
+            nb = int((~torch.isclose(P, prec, rtol=0, atol=1e-6, equal_nan=True)).sum() + (~torch.isclose(R, rec, rtol=0, atol=1e-6, equal_nan=True)).sum())
+            return (sig(fn, kw, "differs-from-per-threshold-counting"), f"{fn} on {tuple(kw['input'].shape)} scores, threshold={kw['threshold']}: {nb} curve entries differ from per-threshold counting", {"relation": "counting-wide"})
+    return None
+
+
+def check_wide(rep: Report, rng: Rng):
+    for fn, kw, tag in wide_cases(rng, rep.tier):
+        rep.case(nontrivial_key=("wide", fn, tag[1], kw["threshold"], kw["optimization"]))
+        rep.count(f"size:wide:{tag[1]}x{kw['threshold']}")
+        v = wide_verdict(fn, kw)
+        if v is not None:
+            rep.violation(v[0], v[1], {"kind": "functional", "case": kw_json(fn, kw), **v[2]})
+
+
 def all_cases(rng, tier):
-    yield from wide_cases(rng, tier)
     yield from binary_cases(rng, tier)
     yield from multi_cases(rng, tier)
 
@@ -819,6 +863,7 @@ def run(rep: Report):
     deadline = time.time() + budget(rep.tier, 45, 800)
     check_known_finding(rep)
     check_threshold_glue(rep)
+    check_wide(rep, rng)
     check_cases(rep, binary_cases(rng, rep.tier), "functional-binary", deadline)
     check_cases(rep, multi_cases(rng, rep.tier), "functional-multi", deadline)
     check_spec_oracles(rep, rng, 1500 if rep.tier == "thorough" else 250)
